@@ -6,7 +6,8 @@ EXTENDS Integers, Sequences, FiniteSets
 
 Mk(c, a, x0, ext, kind, edges) == [n |-> Len(c), c |-> c, a |-> a, x0 |-> x0, ext |-> ext, kind |-> kind, edges |-> edges]
 Ed(s, t, w, lag) == [s |-> s, t |-> t, w |-> w, lag |-> lag]
-Cfg(steps, store, cut, solver, vec) == [steps |-> steps, store |-> store, cut |-> cut, solver |-> solver, vec |-> vec]
+Cfg(steps, store, cut, solver, vec) == [steps |-> steps, store |-> store, cut |-> cut, solver |-> solver, vec |-> vec, form |-> "nodes"]
+CfgPop(steps, store, cut, solver) == [steps |-> steps, store |-> store, cut |-> cut, solver |-> solver, vec |-> TRUE, form |-> "pop"]
 
 Pow2(k) == LET RECURSIVE F(_)
                F(j) == IF j = 0 THEN 1 ELSE 2 * F(j - 1)
@@ -34,7 +35,7 @@ MChain == Mk(<<2, -4>>, <<0, 0>>, <<1, 3>>, <<<<>>, <<>>>>, <<1, 2>>, <<Ed(1, 2,
 C03AdaptiveCases(maxSteps, maxStore) ==
   { [m |-> MChain, cfg |-> Cfg(st, so, cu, "scipy", ve)] : st \in 1..maxSteps, so \in {s \in 1..maxStore : TRUE},
                                                          cu \in {0, 1, 3}, ve \in BOOLEAN } \cap
-  { cs \in [m : {MChain}, cfg : [steps : 1..maxSteps, store : 1..maxStore, cut : {0, 1, 3}, solver : {"scipy"}, vec : BOOLEAN]] :
+  { cs \in [m : {MChain}, cfg : [steps : 1..maxSteps, store : 1..maxStore, cut : {0, 1, 3}, solver : {"scipy"}, vec : BOOLEAN, form : {"nodes"}]] :
         cs.cfg.steps % cs.cfg.store = 0 /\ cs.cfg.steps >= 2 * cs.cfg.store }
 
 (* ---- C09: all edge lists of bounded length over two sources and two targets ---- *)
@@ -63,6 +64,19 @@ C09Cases(len, lags, steps, solvers, kindsets) ==
   \cup { [m |-> C09Model(el, ks), cfg |-> Cfg(steps, 1, 0, sv, TRUE)] :
                el \in { el \in EdgeLists(len, lags, {1, 2}, {3, 4}) : ParallelDelayed(el) },
                ks \in kindsets, sv \in solvers }
+
+(* Population / Connectivity form of the same models (one population per kind, one Connectivity per
+   (source population, target population, lag)).  Supported class: every pair of populations is connected with a
+   single lag (several Connectivity objects between one pair of variables, or several matrix delays on one source
+   variable, are known findings D37 / D38) and target populations have >= 2 units (D27). *)
+PopOK(el, ks) == \A p, q \in 1..Len(el) : (ks[el[p][1]] = ks[el[q][1]]) => el[p][3] = el[q][3]
+C09PopCases(len, lags, steps, solvers, kindsets) ==
+  { [m |-> C09Model(el, ks), cfg |-> CfgPop(steps, 1, 0, sv)] :
+        el \in EdgeLists(len, lags, {1, 2}, {3, 4}), ks \in kindsets, sv \in solvers } \cap
+  { cs \in [m : { C09Model(el, ks) : el \in EdgeLists(len, lags, {1, 2}, {3, 4}), ks \in kindsets },
+            cfg : { CfgPop(steps, 1, 0, sv) : sv \in solvers }] :
+        \A p, q \in 1..Len(cs.m.edges) : (cs.m.kind[cs.m.edges[p].s] = cs.m.kind[cs.m.edges[q].s])
+                                            => cs.m.edges[p].lag = cs.m.edges[q].lag }
 
 (* ---- C08: extrinsic inputs into integrators, alone and together with edges ---- *)
 C08Model(nIn, withEdge, len) ==
